@@ -73,6 +73,9 @@ def column (rows : List (List α)) (j : Nat) : List α := rows.filterMap (fun r 
 /-- sta_lta / maximum_value rejection with `hvsr=` : both masks are overwritten -/
 def timeMask (m : List Bool) (s : HvTrad α) : HvTrad α := { s with vWin := m, vPeak := m }
 
+/-- direct assignment to the two public mask attributes (any combination is a legal state) -/
+def setMasks (vw vp : List Bool) (s : HvTrad α) : HvTrad α := { s with vWin := vw, vPeak := vp }
+
 def setFalse (l : List Bool) (idxs : List Nat) : List Bool :=
   (List.zip (List.range l.length) l).map (fun p => if idxs.contains p.1 then false else p.2)
 
